@@ -38,5 +38,14 @@ CLAIMED['C09'] = {
     'note': 'Bounded stream lengths (props/c09.py META); wall-clock replaced by progress bound + OS timeout contract; randrange/pow/CRC stubs as listed; rate-test phase in C19.',
 }
 
+CLAIMED['C06'] = {
+    'engines': 'ZX',
+    'technique': 'symbolic execution of the real Policy.evaluate over symbolic policy/peer lists, flags and sizes; equivalence with an independent specification decided by z3',
+    'text': 'For all policy/peer lists of 0..3 names (symbolic characters, strict-kex markers placed), both allow_* flags, optional host keys, all sizes of the '
+            'listed digit counts and CA type combinations, z3 shows verdict == specification, passed iff no errors, errors name exactly the failing fields '
+            'with expected/actual values, field interactions are conjunctions, and the monotonicity clauses.',
+    'note': 'Bounded list lengths/name lengths (props/c06.py META); assumes a fresh Policy per evaluation (syntactic glue check on target_worker_thread).',
+}
+
 NOT_APPLICABLE = {
 }
